@@ -47,10 +47,6 @@ func registerEnvStubs() {
 	stubs["time.Now"] = func(x *Exec, f *Closure, a []Value, cc *ssa.CallCommon) Value {
 		return x.zero(f.Fn.Signature.Results().At(0).Type())
 	}
-	stubs["(time.Time).Add"] = func(x *Exec, f *Closure, a []Value, cc *ssa.CallCommon) Value {
-		x.lastDeadlineDelta = a[1].(*term.Term)
-		return a[0]
-	}
 	stubs["time.After"] = func(x *Exec, f *Closure, a []Value, cc *ssa.CallCommon) Value {
 		ch := &ChanV{Kind: "timer"}
 		x.timerChans = append(x.timerChans, ch)
